@@ -7,6 +7,9 @@
 
 #include <QDate>
 #include <QDateTime>
+#include <QHostAddress>
+#include <QMimeDatabase>
+#include <QMimeType>
 #include <QUrl>
 #include <QUuid>
 #include <cmath>
@@ -18,6 +21,7 @@
 #include <type_traits>
 
 static QJsonObject g_ns;
+static QString g_nsOverride;   // set by an object state: the namespace the fragment's parent would declare (context-dependent serializers)
 static std::mt19937_64 g_rng;
 
 template<class X>
@@ -65,6 +69,20 @@ static std::vector<V> domain()
     } else if constexpr (std::is_same_v<V, QUrl>) {
         out = { QUrl(u"https://example.org/x1"_s), QUrl(u"https://example.org/a%20b?x=1&y=%3C2%3E#frag"_s), QUrl(u"xmpp:user@example.org?join"_s), QUrl(QString::fromUtf8("https://example.org/\xc3\xbc?q=a&b=c")),
                 QUrl(u"https://user:pw@example.org:8443/p/a/t/h;x=1"_s) };
+    } else if constexpr (std::is_same_v<V, QMimeType>) {
+        QMimeDatabase db;
+        for (auto n : { "text/plain", "image/png", "application/octet-stream", "audio/ogg", "application/x-tar", "text/x-c++src", "application/vnd.oasis.opendocument.text" })
+            if (auto t = db.mimeTypeForName(QString::fromLatin1(n)); t.isValid()) out.push_back(t);
+    } else if constexpr (std::is_same_v<V, QHostAddress>) {
+        out = { QHostAddress(u"192.0.2.1"_s), QHostAddress(u"255.255.255.255"_s), QHostAddress(u"::1"_s), QHostAddress(u"2001:db8::ff00:42:8329"_s), QHostAddress(u"10.0.0.1"_s), QHostAddress(u"fe80::1"_s) };
+    } else if constexpr (std::is_same_v<V, QMap<QString, QString>>) {
+        out = { V { { u"x1"_s, u"v1"_s } }, V { { u"a"_s, u"1"_s }, { u"b"_s, u"2"_s } }, V { { u"key"_s, u"a<b>&\"'c"_s } }, V { { u"k<&>"_s, QString::fromUtf8("\xc3\xa9\xe4\xb8\xad") } }, V { { u"z"_s, u"26"_s }, { u"a"_s, u"1"_s }, { u"m"_s, u"13"_s } } };
+    } else if constexpr (std::is_same_v<V, QList<int>>) {
+        out = { V { 110 }, V { 100, 201 }, V { 201, 100 }, V { 110, 210, 307, 332 }, V { 999 }, V { 100 } };
+    } else if constexpr (std::is_same_v<V, QList<QByteArray>>) {
+        QByteArray all;
+        for (int i = 0; i < 256; i++) all.append(char(i));
+        out = { V { QByteArray("x1") }, V { QByteArray("key-a"), QByteArray("key-b") }, V { all }, V { QByteArray(1, '\0'), QByteArray("\xff\xfe", 2) }, V { QByteArray(32, 'k'), QByteArray(33, 'l'), QByteArray(31, 'm') } };
     } else if constexpr (std::is_same_v<V, QUuid>) {
         out = { QUuid(u"{d4565ee7-bbb3-4cbe-8a45-1f2c7c9e0a11}"_s), QUuid(u"{00000000-0000-4000-8000-000000000001}"_s), QUuid(u"{ffffffff-ffff-4fff-bfff-ffffffffffff}"_s) };
     } else if constexpr (std::is_same_v<V, QStringList> || std::is_same_v<V, QVector<QString>> || std::is_same_v<V, QList<QString>> || std::is_same_v<V, std::vector<QString>>) {
@@ -83,6 +101,8 @@ static QString show(const V &v)
     } else if constexpr (std::is_integral_v<V>) {
         if constexpr (std::is_signed_v<V>) return QString::number(qlonglong(v));
         else return QString::number(qulonglong(v));
+    } else if constexpr (std::is_enum_v<V>) {
+        return u"enum:"_s + QString::number(qlonglong(v));
     } else if constexpr (std::is_floating_point_v<V>) {
         return QString::number(double(v), 'g', 17);
     } else if constexpr (std::is_same_v<V, QString>) {
@@ -95,6 +115,22 @@ static QString show(const V &v)
         return v.toString(Qt::ISODate);
     } else if constexpr (std::is_same_v<V, QUrl>) {
         return QString::fromLatin1(v.toEncoded());
+    } else if constexpr (std::is_same_v<V, QMimeType>) {
+        return v.name();
+    } else if constexpr (std::is_same_v<V, QHostAddress>) {
+        return v.toString();
+    } else if constexpr (std::is_same_v<V, QMap<QString, QString>>) {
+        QStringList l;
+        for (auto it = v.begin(); it != v.end(); ++it) l << it.key() + QLatin1Char('=') + it.value();
+        return l.join(u" | ");
+    } else if constexpr (std::is_same_v<V, QList<int>>) {
+        QStringList l;
+        for (int i : v) l << QString::number(i);
+        return l.join(u",");
+    } else if constexpr (std::is_same_v<V, QList<QByteArray>>) {
+        QStringList l;
+        for (auto &b : v) l << QString::fromLatin1(b.toHex());
+        return l.join(u",");
     } else if constexpr (std::is_same_v<V, QUuid>) {
         return v.toString();
     } else if constexpr (std::is_same_v<V, QStringList> || std::is_same_v<V, QVector<QString>> || std::is_same_v<V, QList<QString>> || std::is_same_v<V, std::vector<QString>>) {
@@ -122,6 +158,13 @@ static bool same(const V &want, const G &got)
         a.sort();
         b.sort();
         return a == b;
+    } else if constexpr (std::is_same_v<V, QList<int>> || std::is_same_v<V, QList<QByteArray>>) {
+        V a = want, b = got;
+        std::sort(a.begin(), a.end());
+        std::sort(b.begin(), b.end());
+        return a == b;
+    } else if constexpr (std::is_same_v<V, QMimeType>) {
+        return want.name() == got.name();
     } else if constexpr (std::is_same_v<V, bool>) {
         return want == bool(got);
     } else if constexpr (std::is_integral_v<V> && std::is_integral_v<G>) {
@@ -148,6 +191,13 @@ static const std::map<std::string, const char *> EXCLUDED = {
     { "QXmppMessage.setXhtml", "XHTML-IM body is written raw (the documented exception of the statement)" },
     { "QXmppMessage.setCarbonForwarded", "local flag, not part of the serialized form" },
 };
+// values that are outside the field's domain in some object states only (a companion field decides what they mean)
+static bool skipValueInState(const std::string &key, const QString &state, const QString &shown)
+{
+    // XEP-0153: "valid photo" means "the photo with this hash"; without a hash the element is <photo/>, which *is* "no photo"
+    if (key == "QXmppPresence.setVCardUpdateType" && shown == u"enum:2" && state != u"photo") return true;
+    return false;
+}
 template<class V>
 static bool inRange(const V &v, long double lo, long double hi)
 {
@@ -196,10 +246,10 @@ static bool toDom(QByteArray x, QDomDocument &doc, bool &wrapped)
         return parseDocNs("<wrapped-fragment>" + x + "</wrapped-fragment>", doc);
     }
     auto root = doc.documentElement();
-    if (root.namespaceURI().isEmpty() && !root.tagName().contains(u':') && g_ns.contains(root.tagName())) {
+    if (root.namespaceURI().isEmpty() && !root.tagName().contains(u':') && (g_ns.contains(root.tagName()) || !g_nsOverride.isEmpty())) {
         QDomDocument d2;
         d2.setContent(x, false);
-        d2.documentElement().setAttribute(u"xmlns"_s, g_ns[root.tagName()].toString());
+        d2.documentElement().setAttribute(u"xmlns"_s, g_nsOverride.isEmpty() ? g_ns[root.tagName()].toString() : g_nsOverride);
         return parseDocNs(d2.toByteArray(-1), doc);
     }
     return true;
@@ -244,7 +294,23 @@ static std::vector<QByteArray> binaryDomain()
 }
 
 template<class T, class V, class G, class Set, class Get>
-static void runAccess(const char *cls, const char *setter, Set set, Get get, bool binary);
+static void runAccess(const char *cls, const char *setter, Set set, Get get, bool binary, std::vector<V> explicitDom = {});
+
+template<class X>
+struct strip_optional { using type = X; };
+template<class X>
+struct strip_optional<std::optional<X>> { using type = X; };
+
+// enum-valued setters: the domain is every enumerator of the parameter's type (generated from the headers)
+template<class T, class C1, class A, class C2, class R>
+static void runEnumField(const char *cls, const char *setter, void (C1::*set)(A), R (C2::*get)() const, std::vector<typename strip_optional<std::decay_t<A>>::type> values)
+{
+    using V = std::decay_t<A>;
+    using G = std::decay_t<R>;
+    std::vector<V> dom;
+    for (auto v : values) dom.push_back(V(v));
+    runAccess<T, V, G>(cls, setter, [set](T &o, const V &v) { (o.*set)(v); }, [get](const T &o) -> G { return (o.*get)(); }, false, dom);
+}
 
 template<class T, class C1, class A, class C2, class R>
 static void runField(const char *cls, const char *setter, void (C1::*set)(A), R (C2::*get)() const)
@@ -262,13 +328,13 @@ static void runMember(const char *cls, const char *name, V T::*mem, bool binary 
 }
 
 template<class T, class V, class G, class Set, class Get>
-static void runAccess(const char *cls, const char *setter, Set set, Get get, bool binary)
+static void runAccess(const char *cls, const char *setter, Set set, Get get, bool binary, std::vector<V> explicitDom)
 {
     g_fields++;
     if (g_fields <= g_skip) return;
     printf("FIELD %d %s %s\n", g_fields, cls, setter);
     fflush(stdout);
-    auto dom = domain<V>();
+    auto dom = explicitDom.empty() ? domain<V>() : explicitDom;
     if constexpr (std::is_same_v<V, QByteArray>) {
         if (binary) dom = binaryDomain();
     }
@@ -304,6 +370,7 @@ static void runAccess(const char *cls, const char *setter, Set set, Get get, boo
         QJsonArray fails;
         auto attempt = [&](const V &v, QString &got, QByteArray &xml) -> bool {
             T o {};
+            g_nsOverride.clear();
             prep(o);
             set(o, v);
             // a value the setter itself refuses or normalises is outside the field's domain
@@ -343,6 +410,7 @@ static void runAccess(const char *cls, const char *setter, Set set, Get get, boo
         // the probe is the first benign value that differs from what the prepared object reports anyway
         {
             T o {};
+            g_nsOverride.clear();
             prep(o);
             const G def = get(o);
             for (size_t i = 0; i < dom.size(); i++) {
@@ -367,6 +435,7 @@ static void runAccess(const char *cls, const char *setter, Set set, Get get, boo
         g_live++;
         int tried = 0;
         for (size_t i = 1; i < dom.size(); i++) {
+            if (skipValueInState(key, stateName, show(V(dom[i])))) continue;
             tried++;
             g_values++;
             if (!attempt(V(dom[i]), got, xml)) {
@@ -418,6 +487,7 @@ static void runObject(const char *cls, const char *setter, const char *xname, co
                 std::vector<X> in(size_t(count), values[i]);
                 if (count == 2 && values.size() > 1) in[1] = values[1];
                 T o {};
+                g_nsOverride.clear();
                 prep(o);
                 set(o, in);
                 const QByteArray xml = serializeAny(o);
@@ -479,6 +549,7 @@ static std::vector<X> toVec(const L &l) { return std::vector<X>(l.begin(), l.end
 #define OO(T, S, G, X, KEY) runObject<T, X>(#T, #S, #X, KEY, [](T &o, const std::vector<X> &v) { o.S(v.front()); }, [](const T &o) { std::vector<X> r; if (auto x = o.G()) r.push_back(*x); return r; }, 1)
 #define OP(T, S, G, X, KEY) runObject<T, X>(#T, #S, #X, KEY, [](T &o, const std::vector<X> &v) { o.S(v.front()); }, [](const T &o) { return std::vector<X> { o.G() }; }, 1)
 #define F(T, S, G) runField<T>(#T, #S, &T::S, &T::G)
+#define FE(T, S, G, ...) runEnumField<T>(#T, #S, &T::S, &T::G, { __VA_ARGS__ })
 #define M(T, MEM) runMember<T>(#T, #MEM, &T::MEM)
 #define MB(T, MEM) runMember<T>(#T, #MEM, &T::MEM, true)
 
